@@ -144,6 +144,12 @@ func failuresOf(at attempt) []Failure {
 			out = append(out, f)
 		}
 		for _, p := range at.resp.Big {
+			if p.Op == "FilterPipelineMessage.ApplyFilters" {
+				// A direct decode call has no file and no chunk size to be proportional to (a 100 KiB zlib stream of 96 MiB of
+				// zeros is also what a legitimate all-zero chunk looks like): the memory clause of the property applies to the
+				// same streams embedded in a file, where the chunk size bounds the output.
+				continue
+			}
 			f := Failure{Kind: "bigalloc", Op: p.Op, Msg: p.Msg, Class: ">=64MiB block", Fn: "?"}
 			for _, fr := range p.Frames {
 				f.Frames = append(f.Frames, short(fr))
